@@ -13,7 +13,6 @@ package main
 import (
 	"fmt"
 	"mime"
-	"time"
 
 	"github.com/go-openapi/runtime"
 	"github.com/go-openapi/runtime/client"
@@ -123,22 +122,5 @@ func checkSequence(c Case) verdict {
 	if c.Seq == nil || !c.Seq.valid() || c.Seq.Steps < 2 || c.Seq.Steps > 3 {
 		return verdict{outcomes: []string{"harness-error"}}
 	}
-	return withHorizon("the request sequence", func() verdict { return runSequence(c) })
-}
-
-// withHorizon turns a hang into a verdict (3 of 3 executions must hang).
-func withHorizon(what string, run func() verdict) verdict {
-	for try := 0; try < 3; try++ {
-		ch := make(chan verdict, 1)
-		go func() { ch <- run() }()
-		t := time.NewTimer(horizon)
-		select {
-		case v := <-ch:
-			t.Stop()
-			return v
-		case <-t.C:
-		}
-	}
-	hung.Store(true)
-	return verdict{class: "hang", what: fmt.Sprintf("%s did not finish within %v, 3 times out of 3", what, horizon)}
+	return guarded(3, "the request sequence", func() verdict { return runSequence(c) })
 }
